@@ -333,6 +333,31 @@ def lenient {α : Type} (f : R α) (inp : Bytes) : Option α × Bytes :=
 
 def luaName : Bytes := [108, 117, 97]
 
+/-- the `default:` branch of NextBinEntry's switch: a key record (first visit or continuation chunk) -/
+def keyBranch (pf : Bytes → Bool) (L : Nat) (st : LState) (acc : Entry) (t : UInt8) (r : Bytes) :
+    Except (Err × Bytes) (Option Entry × LState × Bytes) :=
+  let keyR : Except (Err × Bytes) (Bytes × Nat × Bytes) :=
+    if st.cs.remain = 0 then
+      match readString r with
+      | .error e => .error e
+      | .ok (k, r1) => .ok (k, 1, r1)
+    else
+      match st.last with
+      | some (k, _) => .ok (k, 0, r)
+      | none => fail .eof r
+  match keyR with
+  | .error e => .error e
+  | .ok (key, need, r1) =>
+    match readObjectValue pf L t st.cs r1 with
+    | .error e => .error e
+    | .ok (cs', r2) =>
+      let captured := r1.take (r1.length - r2.length)
+      let real := if cs'.lastRead = cs'.tot then 0 else cs'.lastRead
+      let e : Entry := { acc with db := st.db, key := key, type := t,
+                                  value := Dump.createValueDump t captured,
+                                  realMemberCount := real, needReadLen := need }
+      .ok (some e, { st with last := some (key, t), cs := cs' }, r2)
+
 /-- `NextBinEntry`: `acc` is the local `entry` being filled by expiry/idle/freq opcodes. -/
 def nextLoop (pf : Bytes → Bool) (floatRaw : Bool) (L : Nat) :
     Nat → LState → Entry → Bytes → Except (Err × Bytes) (Option Entry × LState × Bytes)
@@ -350,15 +375,17 @@ def nextLoop (pf : Bytes → Bool) (floatRaw : Bool) (L : Nat) :
     | .ok (t, r) =>
       match t.toNat with
       | 0xfa =>
-        let (k, r1) := lenient readString r
-        let (v, r2) := lenient readString r1
+        let k := (lenient readString r).1
+        let r1 := (lenient readString r).2
+        let v := (lenient readString r1).1
+        let r2 := (lenient readString r1).2
         if k = some luaName then
           .ok (some { acc with db := st.db, key := luaName, type := t, value := v.getD [],
                                  valueUnspecified := v.isNone }, st, r2)
         else nextLoop pf floatRaw L fuel st acc r2
       | 0xfb =>
-        let (_, r1) := lenient readLength r
-        let (_, r2) := lenient readLength r1
+        let r1 := (lenient readLength r).2
+        let r2 := (lenient readLength r1).2
         nextLoop pf floatRaw L fuel st acc r2
       | 0xfc =>
         match readN 8 r with
@@ -388,29 +415,7 @@ def nextLoop (pf : Bytes → Bool) (floatRaw : Bool) (L : Nat) :
         match readByte r with
         | .error e => .error e
         | .ok (f, r1) => nextLoop pf floatRaw L fuel st { acc with freq := f.toNat } r1
-      | _ =>
-        -- a key record (first visit or continuation chunk)
-        let keyR : Except (Err × Bytes) (Bytes × Nat × Bytes) :=
-          if st.cs.remain = 0 then
-            match readString r with
-            | .error e => .error e
-            | .ok (k, r1) => .ok (k, 1, r1)
-          else
-            match st.last with
-            | some (k, _) => .ok (k, 0, r)
-            | none => fail .eof r
-        match keyR with
-        | .error e => .error e
-        | .ok (key, need, r1) =>
-          match readObjectValue pf L t st.cs r1 with
-          | .error e => .error e
-          | .ok (cs', r2) =>
-            let captured := r1.take (r1.length - r2.length)
-            let real := if cs'.lastRead = cs'.tot then 0 else cs'.lastRead
-            let e : Entry := { acc with db := st.db, key := key, type := t,
-                                        value := Dump.createValueDump t captured,
-                                        realMemberCount := real, needReadLen := need }
-            .ok (some e, { st with last := some (key, t), cs := cs' }, r2)
+      | _ => keyBranch pf L st acc t r
 
 def nextBinEntry (pf : Bytes → Bool) (floatRaw : Bool) (L : Nat) (st : LState) (inp : Bytes) :=
   nextLoop pf floatRaw L (inp.length + 1) st { db := 0, key := [], type := 0, value := [] } inp
